@@ -152,6 +152,13 @@ def stripPlus : Bytes → Bytes
   | 43 :: r => r
   | r => r
 
+/-- what `uinteger.Validate` hands to `strconv.ParseUint` (which accepts no sign): a leading '+' is dropped, and
+    (after the repair) so is the '-' of a minus zero: RFC 6020 §9.2.1 gives every integer type an optional sign -/
+def uintDigits : Bytes → Bytes
+  | 43 :: r => r
+  | 45 :: r => if !r.isEmpty && r.all (· = 48) then r else 45 :: r
+  | r => r
+
 /-- `Type.Validate` -/
 def validate (t : Ty) (s : Bytes) : Bool :=
   match t with
@@ -161,7 +168,7 @@ def validate (t : Ty) (s : Bytes) : Bool :=
      | none => false)
   | .uint w rs =>
     -- strconv.ParseUint: digits only (after the repair a leading '+' is accepted as RFC 6020 §9.2.1 allows)
-    (let r := stripPlus s
+    (let r := uintDigits s
      if allDigits r then (let v := Int.ofNat (natOf r); v ≤ 2 ^ w - 1 && inRanges rs v) else false)
   | .dec fd rs =>
     (match sfOfDecimalText s with
